@@ -10,7 +10,7 @@ Import ListNotations.
 From Exmex.Model Require Import Base EvalBinary Lexer Flat Deep Convert Calc Partial.
 From Exmex.Gen Require Import Tables.
 From Exmex.Spec Require Import RefSem.
-From Exmex.Proofs Require Import Vars DeepVars DeepSem DeepSubs C11Main DeepOps NormalForm RuleAnalysis RealCarrier CalcSem Dual PartialCorrect.
+From Exmex.Proofs Require Import Vars DeepVars DeepSem DeepSubs C11Main DeepOps NormalForm Hereditary RuleAnalysis RealCarrier CalcSem Dual PartialCorrect.
 Open Scope nat_scope.
 
 Local Notation tb := float_table.
@@ -32,31 +32,65 @@ Qed.
    positive or its exponent a natural-number constant, ...) *)
 Definition in_domain (e : deepex R) (vi : nat) (rho : str -> R) : Prop := dk (ddual rho (nth vi (dvars e) []) e).
 
+(* an expression as the constructors build it: variable nodes indexed in the variable list of the outermost level,
+   every level's list sorted, within that list and containing the names and lists below it *)
+Definition built (e : deepex R) : Prop := Ix (dvars e) e /\ hc e /\ nf e.
+
+Lemma consistent_built (e : deepex R) : StronglySorted str_lt (dvars e) -> dconsistent tfl (dvars e) e -> nf e -> built e.
+Proof.
+  intros HS Hc Hnf. split; [|split; [|exact Hnf]].
+  - revert Hc. apply dwf_weaken; [intros i x H; exact H|intros v ->; split; [exact HS|apply incl_refl]].
+  - assert (G : forall e0 : deepex R, dconsistent tfl (dvars e) e0 -> hc e0).
+    { induction e0 as [nodes bops uop vars IH] using deep_ind. intros H0. unfold dconsistent in H0. rewrite dwf_unfold in H0.
+      destruct H0 as (_ & Hv & _ & Hn). unfold is_list in Hv. subst vars. rewrite hc_unfold. apply Forall_forall. intros n Hin.
+      rewrite Forall_forall in Hn. specialize (Hn n Hin). destruct n as [c|d0|i x]; cbn [nwf nhc] in *.
+      - split; [rewrite (dconsistent_vars _ _ _ Hn); apply incl_refl|exact (IH c Hin Hn)].
+      - exact I.
+      - exact (index_of_In _ _ _ _ Hn). }
+    exact (G e Hc).
+Qed.
+
 Theorem partial_is_derivative (e d : deepex R) (vi fuel : nat) :
-  StronglySorted str_lt (dvars e) -> dconsistent tfl (dvars e) e -> nf e -> vi < length (dvars e) ->
+  built e -> vi < length (dvars e) ->
   partial_deepex Rc RDC tb fuel vi e MError = Ok d ->
   dvars d = dvars e /\ dconsistent tfl (dvars e) d /\ nf d /\
   forall rho, in_domain e vi rho ->
     is_derive (fun t => ddenR (line rho (nth vi (dvars e) []) t) e) (rho (nth vi (dvars e) [])) (ddenR rho d).
 Proof.
-  intros HS Hc Hnf Hvi H. set (all := dvars e) in *. set (xi := nth vi all []).
+  intros (Hc & Hh & Hnf) Hvi H. set (all := dvars e) in *. set (xi := nth vi all []).
+  assert (HS : StronglySorted str_lt all).
+  { destruct e as [n b u v]. unfold Ix in Hc. rewrite dwf_unfold in Hc. exact (proj1 (proj1 (proj2 Hc))). }
   assert (ND : NoDup all) by (apply sorted_lt_NoDup; exact HS).
-  assert (Hpart : forall rho, (Wv all d /\ dconsistent tfl all d) /\ dvars d = all /\ (dk (ddual rho xi e) -> ddenR rho d = dd (ddual rho xi e))).
-  { intros rho. exact (partial_ok all HS rho xi vi (var_link_of all vi ND Hvi) fuel e d Hc Hnf H). }
+  assert (Hpart : forall rho, goal_of rho xi e d).
+  { intros rho. exact (partial_ok all rho xi vi (var_link_of all vi ND Hvi) fuel e d Hc Hh Hnf H). }
   destruct (Hpart (fun _ => 0%R)) as ([Wd Cd] & Vd & _). split; [exact Vd|]. split; [exact Cd|]. split; [exact (proj2 (proj1 Wd))|].
   intros rho Hk. destruct (Hpart rho) as (_ & _ & Dd). unfold in_domain in Hk. fold all xi in Hk.
   rewrite (Dd Hk). apply (is_derive_ext (dv (ddual rho xi e))); [intros t; apply ddual_dv|].
   exact (ddual_sound rho xi e Hk).
 Qed.
+(* the result can be differentiated again *)
+Corollary partial_built (e d : deepex R) (vi fuel : nat) :
+  built e -> vi < length (dvars e) -> partial_deepex Rc RDC tb fuel vi e MError = Ok d -> built d.
+Proof.
+  intros Hb Hvi H. destruct (partial_is_derivative e d vi fuel Hb Hvi H) as (Vd & Cd & Nd & _).
+  assert (HS : StronglySorted str_lt (dvars e)).
+  { destruct Hb as (Hc & _). destruct e as [n b u v]. unfold Ix in Hc. rewrite dwf_unfold in Hc. exact (proj1 (proj1 (proj2 Hc))). }
+  apply consistent_built; rewrite ?Vd; assumption.
+Qed.
 
 (* ---- in terms of evaluation ---- *)
-Lemma eval_is_den (all : list str) (vals : list R) (e : deepex R) : dconsistent tfl all e -> length vals = length all ->
+Lemma eval_is_den (all : list str) (vals : list R) (e : deepex R) : dindexed tfl all e -> length vals = length all ->
   eval_deep Rc e vals = Ok (ddenR (env_of Rc all vals) e).
 Proof.
   intros Hc Hl.
   destruct (eval_consistent Rc eq (@eq_refl R) (@eq_sym R) (@eq_trans R) eqR_bin eqR_un tfl
-              (DeepOps.flagged_assoc Rc tb eq Rc_assoc) all vals e (dconsistent_indexed tfl all e Hc) Hl) as (v & Ev & ->).
+              (DeepOps.flagged_assoc Rc tb eq Rc_assoc) all vals e Hc Hl) as (v & Ev & ->).
   exact Ev.
+Qed.
+Lemma built_indexed (e : deepex R) : built e -> dindexed tfl (dvars e) e.
+Proof.
+  intros (Hc & _ & _). split; [|reflexivity]. revert Hc. apply dwf_weaken; [intros i x H; exact H|].
+  intros v [HS Hi]. unfold short_list. apply NoDup_incl_length; [apply sorted_lt_NoDup; exact HS|exact Hi].
 Qed.
 Lemma set_nth_length' {A} (x : A) : forall l n, length (set_nth n x l) = length l.
 Proof. induction l as [|a l IH]; intros n; [destruct n; reflexivity|]. destruct n; cbn; [reflexivity|]. rewrite IH. reflexivity. Qed.
@@ -75,21 +109,38 @@ Proof.
 Qed.
 
 Theorem partial_evaluates_to_the_derivative (e d : deepex R) (vi fuel : nat) (vals : list R) :
-  StronglySorted str_lt (dvars e) -> dconsistent tfl (dvars e) e -> nf e -> vi < length (dvars e) ->
+  built e -> vi < length (dvars e) ->
   partial_deepex Rc RDC tb fuel vi e MError = Ok d -> length vals = length (dvars e) ->
   in_domain e vi (env_of Rc (dvars e) vals) ->
   exists v, eval_deep Rc d vals = Ok v /\
     is_derive (fun t => match eval_deep Rc e (set_nth vi t vals) with Ok y => y | _ => 0%R end) (nth vi vals 0%R) v.
 Proof.
-  intros HS Hc Hnf Hvi H Hl Hk. set (all := dvars e) in *.
-  destruct (partial_is_derivative e d vi fuel HS Hc Hnf Hvi H) as (Vd & Cd & _ & Hder). fold all in Vd, Cd, Hder.
+  intros Hb Hvi H Hl Hk. pose proof (built_indexed e Hb) as Hie. set (all := dvars e) in *.
+  destruct (partial_is_derivative e d vi fuel Hb Hvi H) as (Vd & Cd & _ & Hder). fold all in Vd, Cd, Hder.
+  assert (HS : StronglySorted str_lt all).
+  { destruct Hb as (Hc & _). unfold all. destruct e as [n b u v]. unfold Ix in Hc. rewrite dwf_unfold in Hc. exact (proj1 (proj1 (proj2 Hc))). }
   assert (ND : NoDup all) by (apply sorted_lt_NoDup; exact HS).
-  exists (ddenR (env_of Rc all vals) d). split; [apply eval_is_den; assumption|].
+  exists (ddenR (env_of Rc all vals) d). split; [apply eval_is_den; [apply dconsistent_indexed; exact Cd|exact Hl]|].
   specialize (Hder (env_of Rc all vals) Hk).
   assert (Ex : env_of Rc all vals (nth vi all []) = nth vi vals 0%R).
   { unfold env_of. destruct (index_of_complete (nth vi all []) all 0 (nth_In all [] Hvi)) as [j Hj]. rewrite Hj.
     pose proof (var_link_of all vi ND Hvi j _ Hj) as E. rewrite str_eqb_refl in E. apply Nat.eqb_eq in E. subst j. reflexivity. }
   rewrite Ex in Hder. refine (is_derive_ext _ _ _ _ _ Hder). intros t.
-  rewrite (eval_is_den all (set_nth vi t vals) e Hc) by (rewrite set_nth_length'; exact Hl).
+  rewrite (eval_is_den all (set_nth vi t vals) e Hie) by (rewrite set_nth_length'; exact Hl).
   apply (ddenN_ext_all Rc). intros x. apply line_env; assumption.
+Qed.
+
+(* ---- parsed expressions qualify ---- *)
+From Exmex.Proofs Require Import DeepParse C03Main Accept ParseBuilt.
+Theorem parsed_built (c : chain (D:=R)) : wf_chain tb c = true ->
+  exists e, parse_deep_tokens Rc tb (flatten c) = Ok e /\ dvars e = find_parsed_vars (flatten c) /\ built e.
+Proof.
+  intros Hwf. set (vars := find_parsed_vars (flatten c)).
+  destruct (deep_parse_is_reference_wf Rc tb eq (@eq_refl R) (@eq_sym R) (@eq_trans R) eqR_bin eqR_un Rc_assoc c (map (fun _ => 0%R) vars) Hwf ltac:(apply map_length))
+    as (e & v & Hp & Hv & _ & _ & Hw). fold vars in Hp, Hv, Hw.
+  exists e. split.
+  - unfold parse_deep_tokens. rewrite (rendering_accepted tb c Hwf). cbn [bind]. fold vars. rewrite Hp. reflexivity.
+  - split; [exact Hv|].
+    destruct (dparse_good Rc tb vars _ _ _ _ _ _ e [] (Forall_nil _) Hp) as (Hh & Hn & Hl).
+    split; [|split; assumption]. rewrite Hv. exact (dwf_okl vars _ _ _ e Hw Hl).
 Qed.
